@@ -174,6 +174,7 @@ PROPS["C19"] = dict(
     assumptions=["archetype ids carry a per-process unique component so that a port freed by a case and re-bound by another test process can never answer 'alive'"],
     runs=[
         dict(test="TestC19Detector", quick=dict(checks=400, shards=16, timeout=600), thorough=dict(checks=16000, shards=16, timeout=3600)),
+        dict(test="TestC19ReadLatency", quick=dict(checks=32, shards=16, timeout=300), thorough=dict(checks=960, shards=16, timeout=1800)),
     ],
 )
 
